@@ -49,6 +49,9 @@ var (
 )
 
 func GetPP() *Pt       { return PP }
+func NewPt(x, y int) *Pt { return &Pt{x, y} } // fresh values built by the victim itself
+func ZeroPt() Pt         { return Pt{} }
+func NewRec() *Rec       { return new(Rec) }
 func GetHidden() *int  { return &hidden }
 func GetRec() *Rec     { return hrec }
 func GetArr() *[4]int  { return &Arr }
@@ -130,6 +133,8 @@ func GetLP() []*Pt    { return LP }
 func GetLL() [][]int  { return LL }
 func GetW() []int     { return W }
 func GetIL() IntList  { return IL }
+func NewList() IntList { return IntList{1, 2} }
+func MakeList() IntList { return make(IntList, 2) }
 ` + hooksSrc + `
 func i(n int) string { return strconv.Itoa(n) }
 
@@ -204,6 +209,8 @@ func GetMP() map[string]*Pt  { return MP }
 func GetI() any              { return I }
 func GetFn() func() int      { return Fn }
 func GetSM() StrMap          { return SM }
+func NewMap() StrMap         { return StrMap{"n": 1} }
+func NewPtC() *Pt            { return &Pt{9, 9} }
 ` + hooksSrc + `
 func i(n int) string { return strconv.Itoa(n) }
 
